@@ -82,11 +82,18 @@ func (w *wInterp) bad(f string, a ...any) wv {
 	return nil
 }
 
+// wfunc is a function literal as a value (it may use its own parameters and package-level names only).
+type wfunc struct{ lit *ast.FuncLit }
+
 func (w *wInterp) expr(e ast.Expr) wv {
 	if w.fail != "" {
 		return nil
 	}
 	e = ast.Unparen(e)
+	// a function literal is a value: the driver that can call declared functions calls it the same way
+	if fl, ok := e.(*ast.FuncLit); ok {
+		return wfunc{fl}
+	}
 	// selector chains and calls the driver binds by their text
 	if v, ok := w.lookup(cx(e)); ok {
 		return v
